@@ -316,8 +316,12 @@ func (s *Session) Mail(from string, opts *smtp.MailOptions) error {
 		}
 	}
 
-	// Keep the MAIL FROM argument for deferred startDelivery.
-	s.mailFrom = from
+	if s.endp.deferServerReject {
+		// Keep the MAIL FROM argument for deferred startDelivery.
+		// Otherwise startDelivery already stored the normalized address, the
+		// limits are taken and have to be released using it.
+		s.mailFrom = from
+	}
 	s.opts = *opts
 
 	return nil
